@@ -303,3 +303,53 @@ func VerifC05_StableServiceUnpinnedWhenTheWorkloadIsGone() {
 	}
 	verifrt.Assert(unpinned, "C05.stableService.restore.unpinnedWhetherOrNotTheWorkloadStillExists")
 }
+
+// VerifC06_FinalizingBatchReleaseWaitsUntilCompleted: the ResumeWorkload task asks the BatchRelease to finalise
+// (batchPartition removed, the finalizing policy set) and then *waits* for it: it reports finished only when the
+// BatchRelease is gone or has completed with the partition removed.  Re-executed any number of times — the next
+// reconcile, the first reconcile after a crash that followed the patch, a retry after a conflict — it writes the request
+// once and keeps waiting; it never takes "already asked" for "done".
+func VerifC06_FinalizingBatchReleaseWaitsUntilCompleted() {
+	vSimple = true
+	r := vCanaryRollout(1, 1)
+	cli := &symclient.Client{}
+	exists := verifrt.Bool("br.exists")
+	br := &v1beta1.BatchRelease{ObjectMeta: metav1.ObjectMeta{Namespace: r.Namespace, Name: r.Name}}
+	hasPartition := verifrt.Bool("br.hasBatchPartition")
+	if hasPartition {
+		p := int32(verifrt.IntRange("br.batchPartition", 0, 3))
+		br.Spec.ReleasePlan.BatchPartition = &p
+	}
+	br.Spec.ReleasePlan.FinalizingPolicy = []v1beta1.FinalizingPolicyType{"", v1beta1.ImmediateFinalizingPolicyType, v1beta1.WaitResumeFinalizingPolicyType}[verifrt.IntRange("br.finalizingPolicy", 0, 2)]
+	br.Status.Phase = []v1beta1.RolloutPhase{v1beta1.RolloutPhaseProgressing, v1beta1.RolloutPhaseFinalizing, v1beta1.RolloutPhaseCompleted}[verifrt.IntRange("br.phase", 0, 2)]
+	if exists {
+		cli.Objects = append(cli.Objects, br)
+	}
+	c := &RolloutContext{Rollout: r, NewStatus: r.Status.DeepCopy(), Workload: vWorkload(), WaitReady: verifrt.Bool("ctx.waitReady")}
+	retry, err := finalizingBatchRelease(cli, c)
+	verifrt.Assert(err == nil, "C06.finalizingBR.noError")
+	if !exists {
+		verifrt.Assert(!retry && len(cli.Log) == 0, "C06.finalizingBR.goneMeansFinished")
+		return
+	}
+	completed := !hasPartition && br.Status.Phase == v1beta1.RolloutPhaseCompleted
+	verifrt.Assert(retry == !completed, "C06.finalizingBR.finishedOnlyWhenTheBatchReleaseCompleted")
+	wantPolicy := v1beta1.ImmediateFinalizingPolicyType
+	if c.WaitReady {
+		wantPolicy = v1beta1.WaitResumeFinalizingPolicyType
+	}
+	asked := !hasPartition && (br.Spec.ReleasePlan.FinalizingPolicy == v1beta1.WaitResumeFinalizingPolicyType) == c.WaitReady
+	ws := cli.Writes("patch", "BatchRelease")
+	if completed || asked {
+		verifrt.Cover("already-asked")
+		verifrt.Assert(len(cli.Log) == 0, "C06.finalizingBR.requestWrittenOnce")
+	} else {
+		verifrt.Cover("asks")
+		verifrt.Assert(len(ws) == 1 && len(cli.Log) == 1, "C06.finalizingBR.asksWithOnePatch")
+		if len(ws) == 1 {
+			p, hasP := verifrt.JSONGet(ws[0].Body, "spec", "releasePlan", "batchPartition")
+			pol, _ := verifrt.JSONGet(ws[0].Body, "spec", "releasePlan", "finalizingPolicy")
+			verifrt.Assert(hasP && p == "null" && pol == string(wantPolicy), "C06.finalizingBR.requestRemovesThePartitionAndSetsThePolicy")
+		}
+	}
+}
